@@ -43,7 +43,10 @@ def impl_env(extra=None):
     env["PYTHONPATH"] = str(SRC)
     env["PYTHONHASHSEED"] = "0"
     env[GUARD] = "1"
-    env["PYTHONDONTWRITEBYTECODE"] = "1"
+    # bytecode cache outside /repo: the constexpr evaluator starts a child interpreter with a 1 s
+    # limit, and importing the package from source alone takes most of that
+    env.pop("PYTHONDONTWRITEBYTECODE", None)
+    env["PYTHONPYCACHEPREFIX"] = str(VERIF / ".pycache")
     if extra:
         env.update(extra)
     return env
@@ -52,7 +55,10 @@ def impl_env(extra=None):
 def setup_impl_import():
     """Make `import stationeers_pytrapic` resolve to /repo's working tree in this process."""
     os.environ[GUARD] = "1"
-    sys.dont_write_bytecode = True
+    os.environ.pop("PYTHONDONTWRITEBYTECODE", None)
+    os.environ["PYTHONPYCACHEPREFIX"] = str(VERIF / ".pycache")
+    sys.dont_write_bytecode = False
+    sys.pycache_prefix = str(VERIF / ".pycache")
     p = str(SRC)
     if p in sys.path:
         sys.path.remove(p)
